@@ -948,7 +948,14 @@ class DowngradingConsistencyRetryPolicy(RetryPolicy):
                       'and will be removed in the next major release.',
                       DeprecationWarning)
 
-    def _pick_consistency(self, num_responses):
+    _FIXED_COUNT = {ConsistencyLevel.ANY: 1, ConsistencyLevel.ONE: 1, ConsistencyLevel.LOCAL_ONE: 1,
+                    ConsistencyLevel.TWO: 2, ConsistencyLevel.THREE: 3}
+
+    def _pick_consistency(self, num_responses, consistency=None):
+        # the coordinator's required count includes pending replicas, so enough replicas for the
+        # requested fixed-count level may have answered: never pick a stronger level than requested
+        if num_responses >= self._FIXED_COUNT.get(consistency, num_responses + 1):
+            return self.RETRY, consistency
         if num_responses >= 3:
             return self.RETRY, ConsistencyLevel.THREE
         elif num_responses >= 2:
@@ -966,7 +973,7 @@ class DowngradingConsistencyRetryPolicy(RetryPolicy):
             # Downgrading does not make sense for a CAS read query
             return self.RETHROW, None
         elif received_responses < required_responses:
-            return self._pick_consistency(received_responses)
+            return self._pick_consistency(received_responses, consistency)
         elif not data_retrieved:
             return self.RETRY, consistency
         else:
@@ -984,7 +991,7 @@ class DowngradingConsistencyRetryPolicy(RetryPolicy):
             else:
                 return self.RETHROW, None
         elif write_type == WriteType.UNLOGGED_BATCH:
-            return self._pick_consistency(received_responses)
+            return self._pick_consistency(received_responses, consistency)
         elif write_type == WriteType.BATCH_LOG:
             return self.RETRY, consistency
 
@@ -997,7 +1004,7 @@ class DowngradingConsistencyRetryPolicy(RetryPolicy):
             # failed at the paxos phase of a LWT, retry on the next host
             return self.RETRY_NEXT_HOST, None
         else:
-            return self._pick_consistency(alive_replicas)
+            return self._pick_consistency(alive_replicas, consistency)
 
 
 class AddressTranslator(object):
